@@ -311,11 +311,12 @@ impl<R: Rng + Send> Multiplexor<R> {
                 .send(Frame::new_connect(host, port, flow_id, self.rwnd).into())
                 .or(Err(Error::Closed))?;
             trace!("sending stream to user");
-            let stream = stream_rx
+            let stream = self
+                .until_task_gone(stream_rx)
                 .await
                 // Happens if the task exits before sending the stream,
                 // thus `Closed` is the correct error
-                .or(Err(Error::Closed))?;
+                .ok_or(Error::Closed)?;
             if let Some(s) = stream {
                 return Ok(s);
             }
@@ -416,8 +417,27 @@ impl<R: Rng + Send> Multiplexor<R> {
         self.tx_msg_tx
             .send(bnd_frame.into())
             .or(Err(Error::Closed))?;
-        let result = result_rx.await.or(Err(Error::Closed))?;
+        let result = self
+            .until_task_gone(result_rx)
+            .await
+            .ok_or(Error::Closed)?;
         Ok(result)
+    }
+
+    /// Wait for the task's answer to a request, or for the task to be gone.
+    ///
+    /// When the task ends it answers every request it finds in the flow map, but a request
+    /// that another thread enters after that sweep (and before the task's end of the message
+    /// queue is gone, so that queueing the frame still succeeds) would never be answered.
+    /// The queue going away is the signal that nobody will.
+    async fn until_task_gone<T>(&self, answer: oneshot::Receiver<T>) -> Option<T> {
+        use futures_util::FutureExt;
+        let task_gone = self.tx_msg_tx.closed().fuse();
+        futures_util::pin_mut!(task_gone);
+        futures_util::select_biased! {
+            r = answer.fuse() => r.ok(),
+            () = task_gone => None,
+        }
     }
 
     /// Accept a `Bind` request from the remote peer.
